@@ -25,6 +25,8 @@ pub struct Sim {
     pub vac_kid: u32,
     pub replaced_in_old: bool,
     pub vh: VH,
+    /// raw chains on an absent key: the key the lookup is made for instead (absent as well)
+    pub probe: Option<u32>,
 }
 
 impl Sim {
@@ -404,7 +406,7 @@ fn run_vac<F: Fam>(v: VacantEntry<'_, F::K, F::V, VH>, vend: VEnd, sim: &mut Sim
 /// `q` is the query key (dropped by the harness), `key` the owned key a vacant entry would insert
 pub fn run_raw<F: Fam>(m: &mut Map<F>, q: F::K, key: F::K, how: RawHow, chain: &Chain, sim: &mut Sim) {
     sim.new_kid = key.id();
-    let kk = sim.k;
+    let kk = sim.probe.unwrap_or(sim.k);
     let vh = sim.vh;
     let hash = vh.hash_of(kk as u64);
     let b = m.raw_entry_mut();
